@@ -191,6 +191,23 @@ func (b *Builder) signingKey(sh Shape) (embedded *Key, signer Signer) {
 
 // Request builds the concrete request bytes of a shape.
 func (b *Builder) Request(sh Shape) ([]byte, error) {
+	if sh.Dl == "absent" {
+		// a request without any delta member: built as a well-formed one, then the member is removed
+		ok := sh
+		ok.Dl = "ok"
+		req, err := b.Request(ok)
+		if err != nil {
+			return nil, err
+		}
+		var m map[string]interface{}
+		d := json.NewDecoder(strings.NewReader(string(req)))
+		d.UseNumber()
+		if err := d.Decode(&m); err != nil {
+			return nil, err
+		}
+		delete(m, "delta")
+		return canon(m), nil
+	}
 	ks := b.Keys
 	switch sh.Ty {
 	case "C":
